@@ -127,7 +127,7 @@ def _verify_in_fresh_interpreter(prop, path, signature):
         [sys.executable, os.path.join(VERIF_DIR, "run.py"), prop, "--replay", path, "--expect", signature],
         capture_output=True, text=True, env=env, timeout=600, cwd=VERIF_DIR,
     )
-    return p.returncode == 1 and ("signature=" + signature) in p.stdout, p
+    return p.returncode == 10 and ("signature=" + signature) in p.stdout, p
 
 
 def _regressions(prop, known):
